@@ -35,6 +35,7 @@ _Static_assert(sizeof(int) == 4 && sizeof(long) == 8 && sizeof(void *) == 8, "LP
 _Static_assert(_Generic((int32_t)0, int: 1, default: 0) && _Generic((int64_t)0, long: 1, default: 0) &&
                _Generic((uint64_t)0, unsigned long: 1, default: 0), "fixed-width typedefs as on the host");
 
+#ifndef C14_NO_PRIMITIVE
 /* "the resulting value equals what C++ computes": the NUMBER held by the
  * result -- read through the union member its own tag designates -- equals
  * the expected value, compared exactly across types (no conversion that could
@@ -74,20 +75,24 @@ static inline _Bool c14_num_eq_u(primitive r, uint64_t e) {
   }
 }
 static inline _Bool c14_num_eq_f(primitive r, double e) {   /* float -> double is exact */
-  union { double f; uint64_t u; } a, b;
+  double a;
   switch (r.type) {
-  case primitiveType_float_:  a.f = (double) r.value.float_; break;
-  case primitiveType_double_: a.f = r.value.double_; break;
+  case primitiveType_float_:  a = (double) r.value.float_; break;
+  case primitiveType_double_: a = r.value.double_; break;
   default: return 0;
   }
-  b.f = e;
-  return (e != e) ? (a.f != a.f) : (a.u == b.u);
+  /* same bit pattern, NaNs identified; written without type punning so that the
+     SMT back ends (floating-point theory) can take it */
+  return __CPROVER_isnand(e) ? __CPROVER_isnand(a)
+                             : (a == e && __CPROVER_signd(a) == __CPROVER_signd(e));
 }
 #define C14_SAME(r, e) _Generic((e),                                              \
     _Bool: c14_num_eq_u,                                                          \
     int8_t: c14_num_eq_s, int16_t: c14_num_eq_s, int32_t: c14_num_eq_s, int64_t: c14_num_eq_s,     \
     uint8_t: c14_num_eq_u, uint16_t: c14_num_eq_u, uint32_t: c14_num_eq_u, uint64_t: c14_num_eq_u, \
     float: c14_num_eq_f, double: c14_num_eq_f)((r), (e))
+
+#endif /* C14_NO_PRIMITIVE */
 
 /* ---- "the C++ result is defined" ([expr.pre]/4, [expr.mul]/4, [expr.shift]) ----
  * All macros take the operands with their own C types; the type the operation
